@@ -90,7 +90,7 @@ def targeted_lines(rng, k, nodes):
             if nb == 64 and raw != allones:
                 raw &= (1 << 62) - 1
             if n["af"] > 0:
-                ls.append("ss.setraw %d %d %d %d" % (k, i, raw, rng.choice([0, 1, (1 << n["af"]) - 1, rng.randrange(0, 1 << min(n["af"], 62))])))
+                ls.append("ss.setraw %d %d %d %d" % (k, i, raw, rng.choice([0, 1, (1 << n["af"]) - 1, (1 << n["af"]) - 2, 1 << (n["af"] - 1), (1 << (n["af"] - 1)) + 5, rng.randrange(0, 1 << n["af"])])))
             else:
                 ls.append("ss.setraw %d %d %d" % (k, i, raw))
     return ls
@@ -119,7 +119,14 @@ def gen_built(rng, i, stage1_nodes=None):
     name = rng.choice(["cur", "loc", "syn", "syn", "syn", "v13"])
     B, D = P[name]
     ndumps = rng.choice([1, 1, 1, 2, 2, 3, 4])
-    ls, meta = datasets.build_lines(rng, name, B, D)
+    if rng.random() < 0.06:
+        # wide associated fields: 32, 33, 63 and 64 bits, whose top bits the text form must carry
+        nums = [d for d, e in B.items() if e[3] in (regs.NUMERIC, regs.CODE) and regs.X(d) != 31 and 1 <= e[2] <= 32]
+        strs = [d for d, e in B.items() if e[3] == regs.CCITT and 8 <= e[2] <= 160] or nums
+        tw = [rng.choice([204064, 204064, 204063, 204033, 204032]), 31021, rng.choice(nums), rng.choice(strs), rng.choice(nums), 204000, rng.choice(nums)]
+        ls, meta = datasets.build_lines(rng, name, B, D, template=tw, edition=rng.choice([3, 4]))
+    else:
+        ls, meta = datasets.build_lines(rng, name, B, D)
     parts = [(ls, meta)]
     for _ in range(ndumps - 1):
         l2, m2 = datasets.build_lines(rng, name, B, D, template=meta["template"], edition=meta["ed"])
